@@ -3,6 +3,7 @@ package eng
 import (
 	"bytes"
 	"io"
+	"strconv"
 	"strings"
 	"sync"
 
@@ -29,4 +30,51 @@ var Discard = io.Discard
 func LastLine(s string) string {
 	ls := strings.Split(strings.TrimSpace(s), "\n")
 	return strings.TrimSpace(ls[len(ls)-1])
+}
+
+// FENLines picks the answers of `fen` commands out of a driver's stdout: the lines
+// whose first field is a board description (eight ranks) followed by at least the
+// side to move. Anything else the driver chooses to say in between (`info string`
+// diagnostics for a rejected command, for instance) is not part of any listed
+// property and is skipped.
+func FENLines(out string) []string {
+	var r []string
+	for _, l := range strings.Split(out, "\n") {
+		l = strings.TrimSpace(l)
+		f := strings.Fields(l)
+		if len(f) >= 2 && strings.Count(f[0], "/") == 7 && (f[1] == "w" || f[1] == "b") {
+			r = append(r, l)
+		}
+	}
+	return r
+}
+
+// LastFEN is the last `fen` answer in out ("" when there is none).
+func LastFEN(out string) string {
+	ls := FENLines(out)
+	if len(ls) == 0 {
+		return ""
+	}
+	return ls[len(ls)-1]
+}
+
+// LastScore finds the answer of an `eval` command in out: the last line that is a
+// number, optionally behind "cp" (other lines, e.g. `info string` remarks, are skipped).
+func LastScore(out string) (int, bool) {
+	ls := strings.Split(out, "\n")
+	for i := len(ls) - 1; i >= 0; i-- {
+		f := strings.Fields(ls[i])
+		if len(f) == 0 || f[0] == "info" {
+			continue
+		}
+		if len(f) == 2 && f[0] == "cp" {
+			f = f[1:]
+		}
+		if len(f) == 1 {
+			if n, err := strconv.Atoi(f[0]); err == nil {
+				return n, true
+			}
+		}
+	}
+	return 0, false
 }
